@@ -64,6 +64,7 @@ def requirements(tier):
             'default_pairs': 3000}
 
 
+D_CORE = 'tag:yaml.org,2002:'
 KEYS = ['a', 'b_c', 'd-e']
 ABSENT = 'zz'
 NEWNAMES = ['n1', 'b-c']
@@ -340,7 +341,14 @@ def random_op(rng):
             return ['set', k, ['node', rng.choice([
                 N.s_str('nodeval'), N.s_int(5), ['seq', [N.s_int(1)]],
                 ['map', [[N.s_str('i'), N.s_null()]]],
-                ['s', '!Custom', 'c']])]]
+                ['s', '!Custom', 'c'],
+                # collections that carry a tag of their own
+                ['seq', [N.s_int(1)], D_CORE + 'omap'],
+                ['seq', [], '!Points'],
+                ['map', [[N.s_str('i'), N.s_null()]], D_CORE + 'set'],
+                ['map', [[N.s_str('x'), N.s_int(1)]], '!Point'],
+                ['seq', [N.s_int(1)], D_CORE + 'map'],
+                ['map', [], D_CORE + 'seq']])]]
         return ['set', k, ['py', rng.randrange(len(SETVALS))]]
     if r < 0.62:
         return ['rem', k]
@@ -520,11 +528,36 @@ def check_explicit(ctx, env, tag, s):
         want, lerr = None, e
     case = {'kind': 'explicit', 'tag': tag, 's': s}
     short = tag.rsplit(':', 1)[-1]
+    ynode = N.mk(['s', tag, s])
     try:
-        got = yatiml.Node(N.mk(['s', tag, s])).get_value()
+        got = yatiml.Node(ynode).get_value()
         gerr = None
     except Exception as e:      # noqa
         got, gerr = None, e
+    # asking again gives the same answer, and the answer follows the node:
+    # a hook may edit node.yaml_node in place between two reads
+    try:
+        got2 = yatiml.Node(ynode).get_value()
+        gerr2 = None
+    except Exception as e:      # noqa
+        got2, gerr2 = None, e
+    if type(gerr2) is not type(gerr) or (
+            gerr is None and not same_scalar(got, got2)):
+        ctx.violation(
+            'C14 get_value second-read-differs tag=%s' % short,
+            'get_value() twice on !!%s %r: first %r / %s, then %r / %s' % (
+                short, s, got, type(gerr).__name__, got2,
+                type(gerr2).__name__), case)
+    ynode.tag, ynode.value = S.TAG_INT, '12'
+    try:
+        got3 = yatiml.Node(ynode).get_value()
+    except Exception as e:      # noqa
+        got3 = e
+    if got3 != 12 or type(got3) is not int:
+        ctx.violation(
+            'C14 get_value stale-after-node-edit tag=%s' % short,
+            'after reading !!%s %r the node was edited in place to !!int 12; '
+            'get_value() gives %r' % (short, s, got3), case)
     if lerr is not None:
         # the load rejects the document: get_value() has nothing to agree
         # with, but must not raise anything but RecognitionError
@@ -591,7 +624,7 @@ VALUE_SPELLINGS = [
 ]
 
 
-def make_default_class(defaults, overrides):
+def make_default_class(defaults, overrides, variant=None):
     """Class with three defaulted parameters (and one required)."""
     ns = {}
     src = ('class K:\n'
@@ -600,6 +633,20 @@ def make_default_class(defaults, overrides):
            '        self.p0 = p0\n'
            '        self.p1 = p1\n'
            '        self.p2 = p2\n')
+    if variant == 'new':
+        # a class with a __new__ of its own (instance cache, interning):
+        # the defaults are still those of __init__
+        src += ('    def __new__(cls, *args, **kwargs):\n'
+                '        return super().__new__(cls)\n')
+    elif variant == 'new-named':
+        src += ('    def __new__(cls, req=None, p0=\'other\', p1=-99, '
+                'p2=None):\n'
+                '        return super().__new__(cls)\n')
+    elif variant == 'meta':
+        src = ('class Meta(type):\n'
+               '    def __call__(cls, *args, **kwargs):\n'
+               '        return super().__call__(*args, **kwargs)\n'
+               + src.replace('class K:', 'class K(metaclass=Meta):'))
     ns['D'] = defaults
     exec(src, ns)
     K = ns['K']
@@ -617,7 +664,11 @@ def check_defaults(ctx, env, d_idx, o_idx, vals, o2_idx=None):
     ctx.count('default_pairs')
     defaults = [DEFAULTS[i] for i in d_idx]
     overrides = {k: DEFAULTS[i] for k, i in o_idx.items()}
-    K = make_default_class(defaults, overrides)
+    variant = [None, None, 'new', 'new-named', 'meta'][
+        (sum(d_idx) + len(vals)) % 5]
+    K = make_default_class(defaults, overrides, variant)
+    if variant:
+        ctx.count('default_classes_with_new_or_metaclass')
     eff = {'p%d' % i: overrides.get('p%d' % i, defaults[i]) for i in range(3)}
     case = {'kind': 'defaults', 'd': d_idx, 'o': o_idx, 'vals': vals,
             'o2': o2_idx}
